@@ -193,6 +193,16 @@ func (ex *Exec) heapArrSh(st *State, key string, leafSort string, sh *Shape) str
 		ex.assumption("field " + key + " is final: assigned only while its object is constructed or injected, never afterwards (a write in code under contract is a failed obligation)")
 	}
 	name := ex.eng.smt.named("H"+st.epochOf(key)+"_"+key, srt)
+	// the mutex of an instantiated generic type (generics.MapWithTTL[string,string]#mut) is declared under the
+	// generic's name: like every other mutex it is not held by this goroutine when the function is entered
+	if ex.lockCheck && st.epochOf(key) == "0" && leafSort == "Int" {
+		if a, b := strings.Index(key, "["), strings.LastIndex(key, "]#"); a > 0 && b > a {
+			if base := key[:a] + key[b+1:]; ex.eng.mutexKeys[base] && !ex.eng.mutexKeys[key] {
+				ex.eng.mutexKeys[key] = true
+				st.assume("(forall ((r Int)) (! (= (select " + name + " r) 0) :pattern ((select " + name + " r))))")
+			}
+		}
+	}
 	if st.epoch == "0" && sh != nil && !ex.eng.refAxDone[name] {
 		ex.eng.refAxDone[name] = true
 		lifted := &Shape{T: sh.T, Leaf: srt, Elem: sh, Idx: "Int", Kind: "lift"}
